@@ -19,9 +19,9 @@ Definition pair_ok (p : mp_key * N) : Prop := key_ok (fst p) /\ is_fixint (snd p
 (* the state between two members *)
 Definition st_at (inp : list N) (n j pos : nat) : mp_state :=
   {| mp_inp := inp; mp_pos := pos; mp_start := 1; mp_size := n; mp_idx := j; mp_keyset := false; mp_loaded := j;
-     mp_unmodelled := false |}.
+     mp_close_failed := false; mp_unmodelled := false |}.
 
-Ltac simp_st := unfold inc_loaded, set_pos, inc_idx, set_key; cbn [mp_inp mp_pos mp_start mp_size mp_idx mp_keyset mp_loaded mp_unmodelled].
+Ltac simp_st := unfold inc_loaded, set_pos, inc_idx, set_key; cbn [mp_inp mp_pos mp_start mp_size mp_idx mp_keyset mp_loaded mp_close_failed mp_unmodelled].
 
 Lemma nth_error_mid : forall (A : Type) (a b : list A) x, nth_error (a ++ x :: b) (length a) = Some x.
 Proof. intros. rewrite nth_error_app2 by lia. now rewrite Nat.sub_diag. Qed.
@@ -107,7 +107,7 @@ Proof.
     assert (H0 : nth_error inp 0 = Some (N.of_nat (128 + n))) by (rewrite Hinp; reflexivity).
     rewrite H0.
     assert (Hm : is_fixmap (N.of_nat (128 + n)) = true) by (unfold is_fixmap; lia).
-    rewrite Hm. cbn [mp_inp mp_pos mp_loaded mp_unmodelled].
+    rewrite Hm. cbn [mp_inp mp_pos mp_loaded mp_close_failed mp_unmodelled].
     assert (Hsz : N.to_nat (N.of_nat (128 + n) - 128) = n) by lia. rewrite Hsz. reflexivity. }
   (* VisitKeys prologue: no key pending, position = start *)
   assert (H2 : visit_keys_prologue (st_at inp n 0 1) = Ok (st_at inp n 0 1)) by reflexivity.
@@ -123,7 +123,9 @@ Proof.
   exists (st_at inp n n (1 + length (flat_map enc_pair pairs))).
   split; [|split; reflexivity].
   unfold mp_run, mp_load_map. cbn [exec]. rewrite H1. cbn [exec]. rewrite H2.
-  change (mp_size (st_at inp n 0 1)) with n. rewrite H3. cbn [close]. rewrite H4. reflexivity.
+  change (mp_size (st_at inp n 0 1)) with n. rewrite H3. cbn [close]. rewrite H4.
+  (* Finalize: no scope failed to close *)
+  cbn [exec]. unfold mp_finalize, st_at. cbn [mp_close_failed]. reflexivity.
 Qed.
 
 (* non-vacuity: a three-member document with a string key, an integer key and an empty string key, plus trailing bytes *)
